@@ -452,7 +452,7 @@ private:
 	time_t   session_age();
 
 	void check();
-	void update_exposed(bool); 
+	void update_exposed(bool force,bool resend=false);
 
 
 	void set_session_cookie(int64_t age,std::string const &data,std::string const &key=std::string());
